@@ -63,7 +63,8 @@ type C04Case struct {
 	Sources []string            `json:"sources"`
 	Inc     map[string][]*TNode `json:"inc,omitempty"`
 	Tasks   [][]C04Op           `json:"tasks"`
-	Lazy    bool                `json:"lazy_pool,omitempty"` // the pool is NOT pre-parsed: the first parse on the engine happens inside the tasks
+	Lazy    bool                `json:"lazy_pool,omitempty"`         // the pool is NOT pre-parsed: the first parse on the engine happens inside the tasks
+	NoPath  bool                `json:"pool_without_path,omitempty"` // the pool is parsed with ParseString (no source path)
 	// the failing schedule
 	Trace  []simrt.Seg `json:"schedule,omitempty"`
 	Policy string      `json:"policy,omitempty"`
@@ -90,6 +91,9 @@ func genC04(r *Rng, tier string) *C04Case {
 		}
 		for i, n := range names {
 			ig := NewGen(r.Fork(strSeed(n)), r.Range(2, 10))
+			if r.Chance(0.3) {
+				ig.loop = 1 // the file is meant to be included from inside a loop: cycle / break / continue at its top level
+			}
 			t := ig.Template(cs.Envs[0])
 			if chain && i+1 < len(names) {
 				t = append(t, &TNode{K: "tag", S: "include " + quote(names[i+1])})
@@ -142,6 +146,7 @@ func genC04(r *Rng, tier string) *C04Case {
 		}
 	}
 	cs.Lazy = r.Chance(0.25)
+	cs.NoPath = r.Chance(0.3)
 	hotT, hotB := r.Intn(nt), r.Intn(ne)
 	for i := 0; i < n; i++ {
 		var ops []C04Op
@@ -211,7 +216,12 @@ func c04Build(cs *C04Case) (*c04World, Res) {
 			w.tpls = append(w.tpls, nil) // "render" operations then use the ParseAnd* forms
 			continue
 		}
-		p := ParseLoc(e, src, filepath.Join(c20Root, "root.html"), 1)
+		var p Parsed
+		if cs.NoPath {
+			p = Parse(e, src)
+		} else {
+			p = ParseLoc(e, src, filepath.Join(c20Root, "root.html"), 1)
+		}
 		w.tpls = append(w.tpls, p.T)
 	}
 	for _, env := range cs.Envs {
